@@ -72,8 +72,12 @@ Example store_inv_reachable :
 Proof. split; [apply (tstore_refines 1000)|split; vm_compute; reflexivity]. Qed.
 
 (* ---------------- coalescing *)
-(* the set of instants at which the atom holds is unchanged *)
-Theorem coalesce_pointset : forall l t, dom_ok l ->
+(* dom_ok l: every finite interval of l is valid (start <= end) and its start is
+   an int64 - nothing else; in particular starts at MinInt64 are covered (fix
+   N13: the adjacency test no longer computes a wrapping `Start-1`).
+   the set of instants at which the atom holds is unchanged *)
+Theorem coalesce_pointset : forall l t,
+  (forall i, In i l -> is_concrete i = true -> ks i <= ke i /\ minInt64 <= ks i /\ ks i <= maxInt64) ->
   (covered_iv (coalesce_intervals l) t <-> covered_iv l t).
 Proof. exact coalesce_pointset_lemma. Qed.
 Print Assumptions coalesce_pointset.
@@ -81,28 +85,47 @@ Print Assumptions coalesce_pointset.
 (* any two finite intervals of the result, in result order, are neither
    overlapping nor adjacent: the later one starts at least 2 ns after the
    earlier one ends *)
-Theorem coalesce_separated : forall l, dom_ok l ->
+Theorem coalesce_separated : forall l,
+  (forall i, In i l -> is_concrete i = true -> ks i <= ke i /\ minInt64 <= ks i /\ ks i <= maxInt64) ->
   forall l1 x l2 y l3, filter is_concrete (coalesce_intervals l) = l1 ++ x :: l2 ++ y :: l3 ->
   2 <= Z.of_nat (length l) -> ke x + 1 < ks y.
 Proof. exact coalesce_separated_lemma. Qed.
 Print Assumptions coalesce_separated.
 
 (* through the tree: Coalesce = collect, coalesce, Rebuild *)
-Theorem coalesce_through_tree_pointset : forall t tt, it_inv t -> dom_ok (elements (fst t)) ->
+Theorem coalesce_through_tree_pointset : forall t tt, it_inv t ->
+  (forall i, In i (elements (fst t)) -> is_concrete i = true -> ks i <= ke i /\ minInt64 <= ks i /\ ks i <= maxInt64) ->
   (covered_iv (elements (fst (it_rebuild (coalesce_intervals (elements (fst t)))))) tt <-> covered_iv (elements (fst t)) tt).
 Proof. exact coalesce_tree_pointset. Qed.
 Print Assumptions coalesce_through_tree_pointset.
 
-Example dom_ok_nonvacuous : dom_ok [(Ts 1, Ts 3); (Ts 4, Ts 6); (NegInf, Ts 0); (Ts 9, Ts 9)] /\
-  coalesce_intervals [(Ts 1, Ts 3); (Ts 4, Ts 6); (NegInf, Ts 0); (Ts 9, Ts 9)] = [(Ts 1, Ts 6); (Ts 9, Ts 9); (NegInf, Ts 0)].
+(* non-vacuity: the hypothesis holds of a list with starts at MinInt64, an end at
+   MaxInt64, an unbounded interval and adjacent / separate finite ones *)
+Example dom_ok_nonvacuous :
+  let l := [(Ts 1, Ts 3); (Ts 4, Ts 6); (NegInf, Ts 0); (Ts 9, Ts 9); (Ts minInt64, Ts (-7)); (Ts minInt64, Ts (-9)); (Ts 11, Ts maxInt64)] in
+  dom_ok l /\
+  coalesce_intervals l = [(Ts minInt64, Ts (-7)); (Ts 1, Ts 6); (Ts 9, Ts 9); (Ts 11, Ts maxInt64); (NegInf, Ts 0)].
 Proof.
   split; [|vm_compute; reflexivity].
   intros i Hi Hc. simpl in Hi. unfold minInt64, maxInt64.
   repeat (destruct Hi as [<-|Hi]; [cbn in *; try discriminate; repeat split; try reflexivity; try discriminate|]); destruct Hi.
 Qed.
 
-(* finding N13 (recorded, not repaired): two finite intervals that both start at
-   MinInt64 are not merged although they overlap - Go's `curr.Start-1` wraps *)
+(* fix N13. Before the fix the test was `last.End >= curr.Start-1` (model:
+   adjacent_prefix, coalesce_intervals_prefix): two finite intervals that both
+   start at MinInt64 were not merged although they overlap - `curr.Start-1` wraps *)
 Theorem coalesce_minint_refuted :
-  coalesce_intervals [(Ts minInt64, Ts 5); (Ts minInt64, Ts 9)] = [(Ts minInt64, Ts 5); (Ts minInt64, Ts 9)].
+  coalesce_intervals_prefix [(Ts minInt64, Ts 5); (Ts minInt64, Ts 9)] = [(Ts minInt64, Ts 5); (Ts minInt64, Ts 9)].
 Proof. exact coalesce_minint_refuted_lemma. Qed.
+
+(* the repaired test merges them *)
+Theorem coalesce_minint_merged :
+  coalesce_intervals [(Ts minInt64, Ts 5); (Ts minInt64, Ts 9)] = [(Ts minInt64, Ts 9)].
+Proof. exact coalesce_minint_merged_lemma. Qed.
+
+(* the two tests differ only at MinInt64: for a valid `cur` starting within int64
+   and an `x` starting after MinInt64 they agree *)
+Theorem prefix_test_differs_only_at_minint : forall cur x, minInt64 <= fst cur -> fst cur <= snd cur ->
+  minInt64 < fst x -> fst x <= maxInt64 -> adjacent_prefix cur x = adjacent cur x.
+Proof. exact adjacent_prefix_agrees_lemma. Qed.
+Print Assumptions prefix_test_differs_only_at_minint.
